@@ -469,3 +469,234 @@ def t24():
     t = s.shifted(2)
     return (s.width(), lo, hi, s[1], len(s), t.lo, t.hi, t.width(), s.mid2, isinstance(s, tuple), s == (1, 4), t == Span(3, 6),
             s._fields, s._asdict() == {'lo': 1, 'hi': 4}, Span(hi=9, lo=2).width(), [v for v in t])
+
+
+# ---------------------------------------------------------------- modern python constructs (round 8)
+import dataclasses      # noqa: E402
+import itertools        # noqa: E402
+import operator         # noqa: E402
+
+
+def t25():
+    # walrus, conditional expressions, chained comparisons, star unpacking
+    data = [3, 1, 4, 1, 5, 9, 2, 6]
+    out = []
+    if (n := len(data)) > 5:
+        out.append(n)
+    first, *mid, last = data
+    out.append((first, mid, last))
+    out.append([y for x in data if (y := x * 2) > 6])
+    out.append(1 < data[2] <= 4 < 9)
+    out.append('big' if n > 10 else 'small')
+    a, (b, c) = 1, (2, 3)
+    out.append((a, b, c))
+    out.append([*data[:2], *data[-2:]])
+    out.append({**{'a': 1}, 'b': 2})
+    return out
+
+
+def t26():
+    # late binding of loop variables in closures, defaults binding early, generator consumed twice
+    late = [lambda: i for i in range(3)]
+    early = [lambda i=i: i for i in range(3)]
+    fs = []
+    for k in range(3):
+        def f(x):
+            return x + k
+        fs.append(f)
+    gen = (v * v for v in range(4))
+    s1 = sum(gen)
+    s2 = sum(gen)
+    it = iter([1, 2, 3, 4])
+    pairs = list(zip(it, it))
+    return ([g() for g in late], [g() for g in early], [g(10) for g in fs], s1, s2, pairs)
+
+
+def t27():
+    # zip truncation, enumerate start, reversed, sorted with key, min / max with key, any / all over generators
+    a, b = [1, 2, 3, 4], ['x', 'y', 'z']
+    return (list(zip(a, b)), list(enumerate(b, 1)), list(reversed(a)), sorted(b, reverse=True),
+            sorted([(2, 'b'), (1, 'z'), (2, 'a')], key=lambda t: t[0]), max(a, key=lambda v: -v), min(b),
+            any(v > 3 for v in a), all(v > 1 for v in a), list(map(lambda p, q: p * 2, a, b)), list(filter(None, [0, 1, '', 'a'])),
+            dict(zip(b, a)), list(range(10, 0, -3)), sum(v for v in a if v % 2))
+
+
+def t28():
+    # itertools / functools / operator
+    import functools as ft
+    return (list(itertools.product([0, 1], 'ab')), list(itertools.chain([1], (2, 3))), list(itertools.accumulate([1, 2, 3, 4])),
+            list(itertools.islice(itertools.count(5), 3)), list(itertools.combinations(range(4), 2))[:4],
+            list(itertools.zip_longest([1, 2, 3], 'a', fillvalue=None)), list(itertools.repeat(7, 2)),
+            list(itertools.permutations([1, 2, 3], 2))[:3], list(itertools.starmap(pow, [(2, 3), (3, 2)])),
+            ft.reduce(operator.mul, [1, 2, 3, 4], 1), ft.partial(pow, 2)(5), ft.partial(int, base=2)('101'),
+            operator.itemgetter(1)([5, 6, 7]), operator.attrgetter('real')(3), operator.add(2, 3), operator.neg(4),
+            list(itertools.chain.from_iterable([[1, 2], [3]])), list(itertools.accumulate([1, 2, 3], operator.mul)))
+
+
+@dataclasses.dataclass
+class Opts(object):
+    n: int = 1
+    order: int = 2
+    tags: list = dataclasses.field(default_factory=list)
+
+    def total(self):
+        return self.n + self.order
+
+    @property
+    def twice(self):
+        return 2 * self.n
+
+
+@dataclasses.dataclass(frozen=True)
+class Key(object):
+    method: str
+    n: int = 1
+
+
+def t29():
+    o, p = Opts(), Opts(3, order=4)
+    o.tags.append('x')
+    q = dataclasses.replace(p, n=5)
+    k = Key('central', 2)
+    try:
+        k.n = 3
+        frozen = False
+    except Exception as exc:       # dataclasses.FrozenInstanceError is an AttributeError
+        frozen = isinstance(exc, AttributeError)
+    return (o.n, o.order, p.total(), p.twice, o.tags, p.tags, q.n, q.order, o == Opts(tags=['x']), p == q, k == Key('central', 2),
+            {k: 1}[Key('central', 2)], frozen, dataclasses.asdict(q), dataclasses.astuple(k))
+
+
+def t30():
+    # match statements
+    def kind(v):
+        match v:
+            case 0:
+                return 'zero'
+            case int() | float() if v < 0:
+                return 'negative'
+            case int():
+                return 'int'
+            case (a, b):
+                return 'pair %s %s' % (a, b)
+            case [a, *rest]:
+                return 'seq %s %d' % (a, len(rest))
+            case {'method': m}:
+                return 'method ' + m
+            case str() as s:
+                return 'str ' + s
+            case None:
+                return 'none'
+            case _:
+                return 'other'
+    return [kind(v) for v in (0, -2.5, 7, (1, 2), [1, 2, 3], {'method': 'central', 'n': 1}, 'abc', None, 2.5)]
+
+
+class Lazy(object):
+    calls = 0
+
+    def __init__(self, n):
+        self.n = n
+
+    @functools.cached_property
+    def table(self):
+        Lazy.calls += 1
+        return [self.n] * 2
+
+    @classmethod
+    def of(cls, n):
+        return cls(n + 1)
+
+    def __repr__(self):
+        return f'Lazy({self.n!r})'
+
+
+class Lazier(Lazy):
+    def __init__(self, n):
+        super().__init__(n * 10)
+
+
+def t31():
+    a = Lazy(2)
+    t1, t2 = a.table, a.table
+    a.n = 5
+    t3 = a.table
+    b = Lazier.of(1)
+    return (t1, t1 is t2, t3, Lazy.calls, b.n, type(b).__name__, repr(a), f'{3.14159:.2f}|{42:>5d}|{"x":<3}|{a.n=}', '%5.1f|%-4d|%s' % (2.25, 7, None),
+            '{:d}-{name}'.format(3, name='q'))
+
+
+def t32():
+    # keyword-only and positional-only parameters, *args / **kwargs forwarding, try / except / else / finally
+    def f(a, b=2, *args, c, d=4, **kw):
+        return (a, b, args, c, d, sorted(kw.items()))
+
+    def g(a, /, b, *, c=0):
+        return a + b + c
+    log = []
+    table = {1: 4, 'x': 'y'}
+    for v in (1, 0, 'x'):
+        try:
+            r = 10 / table[v]
+        except KeyError:
+            log.append('zero')
+        except TypeError as exc:
+            log.append(type(exc).__name__)
+        else:
+            log.append(r)
+        finally:
+            log.append('done')
+    try:
+        f(1)
+        miss = None
+    except TypeError:
+        miss = 'missing c'
+    return (f(1, c=3), f(1, 2, 3, 4, c=5, e=6), g(1, 2), g(1, b=2, c=3), log, miss)
+
+
+def t33():
+    # truthiness, `is` / `==`, `//` / `/`, integer vs float, operator precedence
+    vals = [0, 0.0, None, [], (), {}, '', [0], 'a', 1, -1]
+    return ([bool(v) for v in vals], 7 // 2, -7 // 2, 7 / 2, 7 % 3, -7 % 3, 2 ** 3 ** 2, -2 ** 2, not 1 == 2, 1 + 2 * 3 - 4 / 2,
+            None is None, [] == [], 1 == 1.0, None is not None, (1, 2) < (1, 3), 'a' in 'abc', 3 in [1, 2, 3], divmod(7, 2), round(2.5), round(3.5),
+            round(2.625, 2), int(-2.7), abs(-3), 5 if [] else 6, [] or 'default', 0 or None, 1 and 2, 2 ** -1)
+
+
+def t34():
+    # numpy idioms used by vectorised rewrites (concrete data)
+    import numpy as np
+    a = np.arange(6.0).reshape(2, 3)
+    b = np.arange(3.0) + 1
+    out = [np.einsum('ij,j->i', a, b).tolist(), np.einsum('ij->ji', a).tolist(), np.einsum('i,i', b, b).item(), np.einsum('i,j->ij', b, b).tolist(),
+           np.tensordot(a, b, axes=([1], [0])).tolist(), np.tensordot(a, a, axes=([1], [1])).tolist(), np.outer(b, b).tolist(),
+           np.moveaxis(np.zeros((2, 3, 4)), 0, -1).shape, np.swapaxes(np.zeros((2, 3, 4)), 0, 2).shape,
+           np.cumsum(b).tolist(), np.cumprod(b).tolist(), np.stack([b, b], axis=1).shape, np.concatenate([b, b]).tolist(), np.r_[b, 9.0].tolist(),
+           np.take_along_axis(a, np.array([[2, 0, 1], [0, 1, 2]]), axis=1).tolist(), np.take(a, [0, 2], axis=1).tolist(),
+           np.add(b, 1, out=np.zeros(3)).tolist(), np.multiply.outer(b, b).shape, np.matmul(a, b).tolist(), (a @ b).tolist(),
+           np.atleast_2d(b).shape, np.expand_dims(b, 0).shape, b[:, None].shape, b[None, :].shape,
+           np.broadcast_to(b, (2, 3)).tolist(), np.full((2,), 3.0).tolist(), np.where(b > 1, b, 0).tolist(), np.clip(b, 1.5, 2.5).tolist(),
+           np.diff(b).tolist(), np.flip(b).tolist(), np.isclose(b, 2.0).tolist(), np.sum(a, axis=0).tolist(), a.sum(1).tolist(), a.T.shape,
+           np.asarray([1, 2]).dtype == np.int64, np.array([1.0]).dtype == float, np.add.reduce(b).item(), np.maximum.reduce(b).item()]
+    return out
+
+
+def t35():
+    import numpy as np
+    a = np.arange(6.0).reshape(2, 3)
+    b = np.arange(3.0) + 1
+    c = b.copy()
+    c += 1                      # in place
+    v = b[1:]                   # view
+    v *= 10
+    w = np.add(b, 1, where=np.array([True, False, True]), out=np.zeros(3))
+    d = np.zeros(3)
+    np.multiply(b, 2, out=d)
+    e = np.vectorize(lambda x: x + 1)(np.array([1, 2, 3]))
+    f = np.fromiter((k * k for k in range(4)), dtype=float)
+    g = np.array([b, b]).shape
+    h = np.dot(a, b)
+    idx = np.argsort(np.array([3.0, 1.0, 2.0]))
+    m = np.array([3.0, 1.0, 2.0])[idx]
+    return (c.tolist(), b.tolist(), w.tolist(), d.tolist(), e.tolist(), f.tolist(), g, h.tolist(), idx.tolist(), m.tolist(),
+            np.sign(np.array([-2.0, 0.0, 3.0])).tolist(), np.abs(np.array([-2.0, 3.0])).tolist(), float(np.prod(b)), np.size(a), np.ndim(a), a.ravel()[::2].tolist(),
+            np.triu(np.ones((2, 2))).tolist(), np.eye(2).tolist(), np.linspace(0, 1, 3).tolist(), np.repeat(np.array([1, 2]), 2).tolist(), np.tile(np.array([1, 2]), 2).tolist())
